@@ -24,16 +24,18 @@ where
 {
     let rhost = rhost.as_bytes();
     loop {
+        // Not being able to accept a TCP connection is a fatal error.
+        let tcp_stream = listener.accept().await.map_err(FatalError::ClientIo)?;
+        // Only `accept` again once this connection has its permit to send a request.
+        // This way, the backpressure is still propagated to the TCP listener, but an idle
+        // listener does not sit on a slot of the request queue (with as many idle listeners
+        // as the queue has slots, no other remote would ever get one).
         // This fails only if main has exited, which is a fatal error.
         let stream_command_tx_permit = hr
             .stream_command_tx
             .reserve()
             .await
             .or(Err(FatalError::RequestStream))?;
-        // Only `accept` when we have a permit to send a request.
-        // This way, the backpressure is propagated to the TCP listener.
-        // Not being able to accept a TCP connection is a fatal error.
-        let tcp_stream = listener.accept().await.map_err(FatalError::ClientIo)?;
         // A new channel is created for each incoming TCP connection.
         // It's already TCP, anyways.
         let channel =
